@@ -35,7 +35,7 @@ from instr import diskcache
 ID = 'C05'
 COQ_PROP = 'C05'
 LEVEL = 'proof'
-TRANSLATE = ['sql', 'disk']
+TRANSLATE = ['sql', 'disk', 'format']      # format: Cache.__init__ (a handle opened while others write)
 TRUSTED = [
     'SQLite serialises BEGIN IMMEDIATE ... COMMIT, WAL readers see the last committed snapshot, CPython thread-local connections behave as '
     'separate connections, processes behave like threads with their own objects: exercised by the schedule driver of this check, not proved',
@@ -126,6 +126,8 @@ class RefCache:
         op = call['op']
         g = call.get
         k = g('key')
+        if op == 'reopen':
+            return 'opened'
         if op in ('set', 'setitem'):
             self._store(k, call['value'], self._exp(call) if op == 'set' else None, g('tag') if op == 'set' else None)
             self._cull()
@@ -165,7 +167,7 @@ class RefCache:
                     raise Raise('KeyError')
                 return MISS
             it = self.items[i]
-            return [it[1], it[2], it[3]] if g('meta') else it[1]
+            return [it[1], None if it[2] is None else 'E', it[3]] if g('meta') else it[1]
         if op == 'contains':
             i = self._find(k)
             return i is not None and self._live(self.items[i])
@@ -403,7 +405,11 @@ def ref_result(ref, call):
 def observed_of(rec):
     if rec.get('exc'):
         return ('exc', rec['exc'])
-    return ('ok', rec.get('result'))
+    r = rec.get('result')
+    if rec.get('op') == 'get' and rec.get('call', {}).get('meta') and isinstance(r, list) and len(r) == 3:
+        # get(expire_time=True, tag=True): value, whether it has an expiry (the instant depends on the clock reading of the set), tag
+        r = [r[0], None if r[1] is None else 'E', r[2]]
+    return ('ok', r)
 
 
 # ---------------------------------------------------------------------------
@@ -573,7 +579,7 @@ def written_values(programs, setup):
     return vals, counters
 
 
-def check_run(r, programs, setup, kind='cache', stats=None):
+def check_run(r, programs, setup, kind='cache', stats=None, init=None):
     """Returns a list of (sig, description).  r = result of run_program / run_processes."""
     out = []
     if r['overflow']:
@@ -599,9 +605,11 @@ def check_run(r, programs, setup, kind='cache', stats=None):
     vals, counters = written_values(programs, setup)
     for recs in r['calls']:
         for rec in recs:
-            if rec['op'] in ('get', 'getitem', 'pop') and 'result' in rec and rec['result'] != MISS:
+            if kind in ('cache', 'fanout') and rec['op'] in ('get', 'getitem', 'pop') and 'result' in rec and rec['result'] != MISS:
                 k = repr(rec['call'].get('key'))
                 v = rec['result']
+                if rec['op'] == 'get' and rec['call'].get('meta') and isinstance(v, list) and len(v) == 3:
+                    v = v[0]
                 if repr(v) in vals.get(k, ()):
                     continue
                 if k in counters and type(v) is int:
@@ -615,7 +623,7 @@ def check_run(r, programs, setup, kind='cache', stats=None):
         except Exception as e:  # noqa
             return out + [('unusable_after_run', 'the directory cannot be opened/read after all clients finished: %r' % e)]
     acts = actions_of_calls(r['calls'])
-    init = make_ref(kind, setup)
+    init = init if init is not None else make_ref(kind, setup)
     fin = final_matches(kind, snap)
     res = linearize(acts, init, fin, tolerate=False)
     anomalies = 0
@@ -680,6 +688,10 @@ def gen_call(rng, tag, keys=('a', 'b')):
         call['value'] = gen_value(rng, tag)
     if op in ('set', 'add', 'touch'):
         call['expire'] = rng.choices([None, 100, -1, 0], [70, 18, 8, 4])[0]
+    if op in ('set', 'add') and rng.random() < 0.3:
+        call['tag'] = 'tag' + tag
+    if op == 'get' and rng.random() < 0.35:
+        call['meta'] = True         # value, expiry and tag must come from ONE item
     if op in ('incr', 'decr'):
         call['delta'] = rng.choice([1, 1, 2, 5])
         call['default'] = rng.choice([0, 0, 10, None])
@@ -692,6 +704,8 @@ def gen_program(rng, nclients=None):
     n = nclients or rng.choices([2, 3, 4], [55, 30, 15])[0]
     progs = [[gen_call(rng, '%d%d' % (i, j)) for j in range(rng.choices([1, 2, 3], [30, 40, 30])[0])] for i in range(n)]
     for i in range(n):
+        if rng.random() < 0.08:
+            progs[i].insert(rng.randrange(len(progs[i]) + 1), {'op': 'reopen'})
         if rng.random() < 0.12:
             # the client's calls are made from inside the body of `for key in cache:` (the iterator stays suspended meanwhile)
             progs[i] = [{'op': 'iter_open', 'n': 1, 'how': rng.choice(['iter', 'iter', 'reversed', 'iterkeys'])}] + progs[i] + [{'op': 'iter_rest'}]
@@ -744,6 +758,19 @@ def corpus():
         ('reader_vs_delete_file', [[{'op': 'get', 'key': 'a'}, {'op': 'contains', 'key': 'a'}], [{'op': 'delete', 'key': 'a', 'retry': t}]],
          [{'op': 'set', 'key': 'a', 'value': BIG1}], 'reader'),
         ('set_set_file', [[{'op': 'set', 'key': 'a', 'value': BIG1, 'retry': t}], [{'op': 'set', 'key': 'a', 'value': BIG2, 'retry': t}], [{'op': 'get', 'key': 'a'}]], [], None),
+        # value, expiry and tag returned by one lookup must belong to ONE item (the old one or the new one)
+        ('meta_reader_vs_set_inline', [[{'op': 'get', 'key': 'a', 'meta': True}, {'op': 'get', 'key': 'a', 'meta': True}],
+                                       [{'op': 'set', 'key': 'a', 'value': 'new', 'tag': 'tnew', 'expire': 100, 'retry': t}]],
+         [{'op': 'set', 'key': 'a', 'value': 'old'}], None),
+        ('meta_reader_vs_set_file', [[{'op': 'get', 'key': 'a', 'meta': True}, {'op': 'get', 'key': 'a', 'meta': True}],
+                                     [{'op': 'set', 'key': 'a', 'value': BIG2, 'tag': 'tnew', 'retry': t}]],
+         [{'op': 'set', 'key': 'a', 'value': BIG1, 'tag': 'told', 'expire': 100}], None),
+        # a client opens a fresh handle (Cache.__init__ re-applies the stored settings) while others insert and remove items:
+        # the counters behind len() must still agree with the keys
+        ('open_while_writing', [[{'op': 'reopen'}, {'op': 'len'}, {'op': 'get', 'key': 'a'}],
+                                [{'op': 'set', 'key': 'c', 'value': 1, 'retry': t}, {'op': 'delete', 'key': 'a', 'retry': t},
+                                 {'op': 'set', 'key': 'd', 'value': BIG1, 'retry': t}, {'op': 'len'}]],
+         [{'op': 'set', 'key': 'a', 'value': 1}, {'op': 'set', 'key': 'b', 'value': BIG2}], None),
         ('timeout_noeffect', [[{'op': 'set', 'key': 'a', 'value': BIG1, 'retry': False}], [{'op': 'set', 'key': 'a', 'value': BIG2, 'retry': False}]], [], None),
     ]
 
@@ -802,9 +829,10 @@ def is_filed(v):
 
 def one_case(ctx, res, stats, programs, setup, schedule, mode, label, driver='thread', expect=None, record=True):
     if driver == 'process':
-        r = concdrv.run_processes(ctx, programs, schedule, settings=SETTINGS, setup=setup, max_steps=6000)
+        r = concdrv.run_processes(ctx, programs, schedule, settings=SETTINGS, setup=setup, max_steps=6000, sleep_advances=False)
     else:
-        r = concdrv.run_program(ctx, programs, schedule, mode=mode, settings=SETTINGS, setup=setup, max_steps=6000)
+        # (the clock is frozen: a handle opened while another client holds the lock retries its settings statements with sleeps)
+        r = concdrv.run_program(ctx, programs, schedule, mode=mode, settings=SETTINGS, setup=setup, max_steps=6000, sleep_advances=False)
     case = {'check': 'schedule', 'label': label, 'programs': programs, 'setup': setup, 'schedule': r['schedule_used'], 'mode': mode,
             'driver': driver, 'settings': SETTINGS, 'expect': expect}
     stats['runs'] += 1
@@ -1185,7 +1213,7 @@ def correspondence(ctx, res, trace_records):
             for c in recs:
                 if c.get('depth', 0) or c.get('op') in tracecorr.SKIP_OPS or 'events' not in c:
                     continue
-                if c.get('op') in ('begin_block', 'end_block', 'raise_in_block'):
+                if c.get('op') in ('begin_block', 'end_block', 'raise_in_block', 'reopen') or c.get('op') in concdrv.ITER_OPS:
                     continue
                 tags = tracecorr.tags_from_shorts(c['events'], timed_out=(c.get('exc') == 'Timeout'))
                 traces.append(((ri, c.get('client'), c.get('index'), c.get('op'), c['events']), tags, False))
